@@ -455,6 +455,23 @@ def check_case(case, ctx):
                 if case.get("more"):
                     want.append({"path": ("dns-beacon",), "kw": ["dns_idle"], "args": [v[1]], "vals": [v[1].encode()], "rule": "x"})
                 text = None
+            elif which == "emptydt-filled-later":
+                # a transform block attached while still empty and filled through the handle afterwards, with a read in between
+                out = c2p.DataTransformBlock()
+                built.set_config_block("http_get", c2p.HttpGetBlock(uri=v[0], server=c2p.HttpOptionsBlock(header=[(v[1], v[2])], output=out)))
+                if case.get("more"):
+                    built.as_dict()
+                    built.as_text()
+                out.add_step("base64", None)
+                out.add_step("prepend", v[1])
+                out.add_termination("print", None)
+                p_ = ("http-get", "server", "output")
+                want = [{"path": ("http-get",), "kw": ["uri"], "args": [v[0]], "vals": [v[0].encode()], "rule": "x"},
+                        {"path": ("http-get", "server"), "kw": ["header"], "args": [v[1], v[2]], "vals": [v[1].encode(), v[2].encode()], "rule": "x"},
+                        {"path": p_, "kw": ["base64"], "args": [], "vals": [], "rule": "transform_statement"},
+                        {"path": p_, "kw": ["prepend"], "args": [v[1]], "vals": [v[1].encode()], "rule": "transform_statement"},
+                        {"path": p_, "kw": ["print"], "args": [], "vals": [], "rule": "termination_statement"}]
+                text = f'http-get {{ set uri "{v[0]}"; server {{ header "{v[1]}" "{v[2]}"; output {{ base64; prepend "{v[1]}"; print; }} }} }}'
             else:
                 steps = None if which == "emptydt-none" else []
                 built.set_config_block("http_get", c2p.HttpGetBlock(uri=v[0], server=c2p.HttpOptionsBlock(header=[(v[1], v[2])], output=c2p.DataTransformBlock(steps=steps))))
@@ -567,8 +584,8 @@ def run_shard(shard, ctx):
             if i < 4:
                 vals[i] = [b"\\'", b"'\\", b"\\\"", b"\\'\\'"][i]
             check_case({"op": "builder_bytes", "vals": vals}, ctx)
-        for i in range(12):
-            check_case({"op": "builder_edge", "which": ["dnscomment", "emptydt-none", "emptydt-list"][i % 3], "more": i % 2 == 0,
+        for i in range(16):
+            check_case({"op": "builder_edge", "which": ["dnscomment", "emptydt-none", "emptydt-list", "emptydt-filled-later"][i % 4], "more": (i // 4) % 2 == 0,
                         "vals": [_val(rng) or "x" for _ in range(3)]}, ctx)
         for _ in range(12):
             check_case({"op": "kwargs", "vals": [_val(rng) or "x" for _ in range(13)]}, ctx)
